@@ -243,7 +243,7 @@ func checkC08(c *Ctx, r *Report) {
 			continue
 		}
 		for _, fi := range w.funcsOfPkg(e.pkgRel) {
-			ast.Inspect(fi.Decl, func(nd ast.Node) bool {
+			w.inspectRegion(fi, func(nd ast.Node) bool {
 				cl, ok := nd.(*ast.CompositeLit)
 				if !ok {
 					return true
@@ -398,7 +398,7 @@ func checkTypedEnum31(c *Ctx, r *Report) {
 	}
 	var sites []string
 	n := 0
-	ast.Inspect(fi.Decl, func(nd ast.Node) bool {
+	w.inspectRegion(fi, func(nd ast.Node) bool {
 		if cl, ok := nd.(*ast.CompositeLit); ok {
 			if nt, ok := derefNamed(fi.Pkg.TypesInfo.TypeOf(cl)); ok && nt.Obj() == node.Obj() {
 				n++
@@ -443,7 +443,7 @@ func checkRefConstruction(c *Ctx, r *Report) {
 			nRef++
 			sites = append(sites, w.pos(sk.Pos))
 		}
-		ast.Inspect(fi.Decl, func(n ast.Node) bool {
+		w.inspectRegion(fi, func(n ast.Node) bool {
 			switch x := n.(type) {
 			case *ast.CompositeLit:
 				nt, ok := derefNamed(info.TypeOf(x))
